@@ -84,6 +84,24 @@ impl PositionInfo {
     pub fn current_position_hash(&self) -> u64 {
         self.current_position_hash
     }
+
+    #[cfg(feature = "verif")]
+    pub fn verif_fill_internals(&self, internals: &mut crate::verif::BoardInternals) {
+        let mut counts: Vec<(u64, u64)> = self
+            .position_count
+            .iter()
+            .filter(|(_, &count)| count != 0)
+            .map(|(key, &count)| (crate::verif::key_digest(key), count as u64))
+            .collect();
+        counts.sort();
+        internals.position_counts = counts;
+        internals.max_seen_position_count_stack = self
+            .max_seen_position_count_stack
+            .iter()
+            .map(|&c| c as u64)
+            .collect();
+        internals.current_position_hash = self.current_position_hash;
+    }
 }
 
 #[cfg(test)]
